@@ -119,13 +119,10 @@ Definition remove_cand_prof (removed : cset) (condense_flag leave_zero : bool) (
   let bs := remove_cand_bs removed condense_flag leave_zero (ballots p) in
   mk_profile bs (set_diff (cands p) removed).
 
-(* remove_cand on a single Ballot returns clean_profile.ballots[0] *)
+(* remove_cand on a single Ballot returns the scrubbed ballot (after the repair recorded in
+   known_findings.json; the original indexed an emptied tuple and raised IndexError) *)
 Definition remove_cand_ballot (removed : cset) (condense_flag leave_zero : bool) (b : ballot)
-  : res ballot :=
-  match remove_cand_bs removed condense_flag leave_zero [b] with
-  | [] => err EIndex
-  | b' :: _ => ok b'
-  end.
+  : res ballot := ok (scrub removed b).
 
 (* ---------- add_missing_cands ---------- *)
 Definition add_missing_ballot (cs : cset) (b : ballot) : res ballot :=
@@ -396,12 +393,15 @@ Definition ballot_eq (a b : ballot) : bool :=
                   | None => false end
       | None => true end)
   && (match sc a with [] => true | d => scores_eqb d (sc b) end).
+(* PreferenceProfile.__eq__ (after the repair recorded in known_findings.json): the condensed
+   profiles must give every (ranking, scores) content of non-zero weight the same weight *)
+Definition content_in (b : ballot) (bs : list ballot) : bool :=
+  existsb (fun b' => key_match b b' && Qeq_bool (wt b) (wt b')) bs.
+Definition nonzero_wt (b : ballot) : bool := negb (Qeq_bool (wt b) 0).
 Definition profile_eq (p q : profile) : bool :=
-  let bp := condense_bs (ballots p) in
-  let bq := condense_bs (ballots q) in
-  (* `b not in pp.ballots` calls the tuple ELEMENT's __eq__ with b as argument *)
-  forallb (fun b => existsb (fun b' => ballot_eq b' b) bq) bp &&
-  forallb (fun b => existsb (fun b' => ballot_eq b' b) bp) bq.
+  let bp := filter nonzero_wt (condense_bs (ballots p)) in
+  let bq := filter nonzero_wt (condense_bs (ballots q)) in
+  forallb (fun b => content_in b bq) bp && forallb (fun b => content_in b bp) bq.
 (* __add__: candidates recomputed from the cast ballots; the condensed copy is discarded *)
 Definition profile_add (p q : profile) : res profile := mk_profile (ballots p ++ ballots q) [].
 
